@@ -165,6 +165,9 @@ def compact_failures(cells, want_c09=True):
             random.Random(1).shuffle(sh)
             if set(compact(sh + sh[:2])) != rs:
                 out.append("result depends on input order/duplication")
+            num = sorted(set(cells))
+            if set(compact(list(num))) != rs or set(compact(list(reversed(num)))) != rs:
+                out.append("result depends on input order (numerically sorted input)")
         except Exception as e:
             out.append("second compact raised %s" % e)
     return out
@@ -189,6 +192,9 @@ def compact_inputs(rng):
     # low faces given directly, high faces through their segments (and the converse): after the first pass the
     # merged parents must still line up with the directly given faces
     yield res0[:11] + s.cell_to_children(res0[11], 1)
+    # a face's five segments together with the faces whose 6-bit field lies among those segments' fields
+    for k in (1, 2):
+        yield s.cell_to_children(res0[k], 1) + [res0[j] for j in range(5 * k, min(12, 5 * k + 5)) if j != k]
     yield res0[:6] + [x for f in res0[6:] for x in s.cell_to_children(f, 1)]
     yield [x for f in res0[:6] for x in s.cell_to_children(f, 1)] + res0[6:]
     yield res0[:3] + s.cell_to_children(res0[3], 1) + res0[4:9] + s.cell_to_children(res0[9], 1) + res0[10:]
